@@ -123,6 +123,9 @@ def spec_request(method, target, host, ctype=None, body=None):
     return (s + "\r\n").encode() + (body or b"")
 
 
+PAIR = __import__("collections").namedtuple("PAIR", "a b")
+
+
 def rand_json(rng, depth=0):
     r = rng.random()
     if depth > 2 or r < 0.35:
@@ -219,8 +222,13 @@ def run(ctx: Ctx, driver: Driver):
             await conn.get(target)
             check("get", host, secure, *last(), "GET", target, None, None)
         for _ in range(ctx.budget(6, 60)):
-            v = rand_json(rng)
-            body = hkjson.dump_bytes(v)
+            v = rand_json(rng) if rng.random() < 0.8 else {"characteristics": [{"aid": 1, "iid": 10, "value": rng.choice([2 ** 64, -2 ** 64, PAIR(3, 4), 2 ** 64 - 1])}]}
+            try:
+                body = hkjson.dump_bytes(v)
+            except Exception as e:  # noqa: BLE001
+                # the encoder refuses the value: nothing is written, which the property allows
+                ctx.dist["json:encoder-refuses:" + type(e).__name__] += 1
+                continue
             if ws_outside_strings(body) or json.loads(body) != json.loads(json.dumps(v)):
                 ctx.violation("json/compact", f"JSON body {body[:120]!r} is not compact or does not parse back", {"stream": "json", "value": repr(v)[:300]})
             await conn.put("/characteristics", body)
